@@ -343,6 +343,8 @@ class PumpCase:
                 self.flags.add("fed")
             if c[0] == 0 and c[1] == 0 and c[2] > 0:
                 self.flags.add("flushed")
+            if c[0] == 0 and c[1] == 0 and c[2] > 65536:
+                self.flags.add("flushed_over_64k")
         last = sslcalls[-1][1] if sslcalls else None
         want_name = {0: "do_handshake", 1: "read", 2: "write", 3: "unwrap", 4: "unwrap"}[op[0]]
         for (name, _k, arg) in sslcalls:
@@ -420,6 +422,8 @@ def gen_pump_case(rng: random.Random) -> PumpCase:
             ln = rng.choice([0, 1, n, max(0, n - 1), n]) if rng.random() < 0.95 else n + 2
             val = [rng.randrange(256) for _ in range(ln)]
         emit = [rng.randrange(256) for _ in range(rng.choice([0, 1, 2, 4]))]
+        if rng.random() < 0.004:
+            emit = [rng.randrange(4) for _ in range(rng.choice([4097, 16385, 65537]))]
         script.append((kind, rng.choice([0, 0, 1, 3, 9]), val, emit))
     if wild:
         script = [(rng.randrange(8), rng.randrange(4), [rng.randrange(256) for _ in range(rng.randrange(3))],
@@ -452,6 +456,25 @@ def small_scope_cases() -> list[PumpCase]:
                                     script.append((k2, 0, [7, 8] if k2 == 0 else [], emit))
                                 rx = [(rxk, [1, 2] if rxk == 0 else [])]
                                 out.append(PumpCase(std, 1, script, rx, [txk] if txk else [], [op, (1, 1)]))
+    return out
+
+
+def big_output_cases() -> list[PumpCase]:
+    """Directed: one SSL call leaves MORE ciphertext in the outgoing BIO than any plausible cap on a single
+    transport.send() (1, 4096, 16384, 65536): every flush site must hand over everything that is pending."""
+    def blob(n, k):
+        # small byte values: the model's bytes are unary numbers
+        return [(i * 7 + k + i // 5) % 5 for i in range(n)]
+
+    out = []
+    for n in (2, 4097, 16385, 65537, 70001):
+        big = blob(n, n % 251)
+        out.append(PumpCase(True, 1, [(0, 0, [2], big)], [], [], [(2, [7, 8])]))                         # send
+        out.append(PumpCase(True, 1, [(0, 0, [5], big)], [], [], [(1, 4)]))                              # receive
+        out.append(PumpCase(False, 1, [(0, 0, [], big)], [], [], [(0,)]))                                # handshake
+        out.append(PumpCase(True, 1, [(1, 0, [], big), (0, 2, [5], [1])], [(0, [1, 2])], [], [(1, 4)]))  # want-read flush
+        out.append(PumpCase(True, 1, [(2, 0, [], big), (0, 0, [1], big[:n // 2 + 1])], [], [], [(2, [1])]))  # want-write
+        out.append(PumpCase(True, 1, [(0, 0, [], big)], [], [], [(3,)]))                                 # unwrap
     return out
 
 
@@ -596,6 +619,14 @@ def gen_scenarios(rng: random.Random, tier: str, struct):
                     out.append(mk(version=version, std_c=std_c, std_s=std_s, chunk_cs=rng.choice(CHUNKINGS), chunk_sc=ch,
                                   payload_c=rng.choice([[7], [1, 0, 300], [17000]]), payload_s=ps,
                                   recv_c=rng.choice(recv_sizes[1:]), recv_s=rng.choice(recv_sizes[1:]), mode="half_close"))
+    # 4d. one send() producing more than 64 KiB of ciphertext while the reader task of the same end is already parked
+    #     in receive(); the writer then idles and the peer replies only after it has got the complete message
+    for version in ("1.2", "1.3"):
+        for big in ([100000], [300000], [70000, 5]):
+            out.append(mk(version=version, std_c=rng.choice([True, False]), std_s=rng.choice([True, False]),
+                          chunk_cs=rng.choice(["record", "coalesce", "random"]), chunk_sc=rng.choice(list(CHUNKINGS)),
+                          payload_c=big, payload_s=rng.choice([[10], [3, 0, 200]]), recv_c=rng.choice(recv_sizes),
+                          recv_s=rng.choice([[65536], [16384], [20000]]), initiator="client", mode="duplex_reply"))
     # 4c. receive() inside an already cancelled scope must not consume anything
     for version in ("1.2", "1.3"):
         for ch in ("coalesce", "record", "random"):
@@ -653,6 +684,8 @@ def run_e2e(tier: str, rng: random.Random, corpus: list):
                 fl.add("cut_during_handshake" if hs_failed else "cut_after_handshake")
             if sum(sc.payload_c) > 16384 or sum(sc.payload_s) > 16384:
                 fl.add("multi_record_payload")
+            if sc.mode == "duplex_reply" and max(sc.payload_c, default=0) > 66000 and not v:
+                fl.add("duplex_reply_over_64k")
             if 0 in sc.payload_c or 0 in sc.payload_s:
                 fl.add("zero_length_item")
             if sc.payload_c and sc.payload_s:
@@ -743,7 +776,7 @@ def check(tier: str) -> int:
 
             corpus_b.append(E.Scenario.from_json(j["scenario"]))
     bio_bad = bio_selfcheck(rng, 200 if tier == "quick" else 3000)
-    cases = list(corpus_a) + small_scope_cases() + ragged_eof_cases()
+    cases = list(corpus_a) + small_scope_cases() + ragged_eof_cases() + big_output_cases()
     n_small = len(cases) - len(corpus_a)
     n_random = 4000 if tier == "quick" else 150000
     cases += [gen_pump_case(rng) for _ in range(n_random)]
@@ -755,7 +788,7 @@ def check(tier: str) -> int:
     pump_hits = [(c, msg) for c in cases for msg in c.mon]
 
     sample_n = 60 if tier == "quick" else 400
-    idx = list(range(len(cases)))
+    idx = [i for i in range(len(cases)) if len(flats[i]) < 3000]
     rng.shuffle(idx)
     idx = idx[:sample_n]
     vm_ok, vm_log = core.coq_eval_cases("c17", "TlsPump", [flats[i] for i in idx], [cases[i].outs for i in idx])
@@ -866,10 +899,10 @@ def check(tier: str) -> int:
         "samples": [cases[i].to_json()["readable"] | {"outs": cases[i].outs[:60]} for i in idx[:2]] +
                    [{"scenario": sc.to_json(), "summary": s} for sc, _v, _fl, s in e2e_results[:1] + e2e_results[-1:]],
     })
-    need_a = ("want_read", "want_write", "transport_eof", "ragged_eof_nonstd", "ssl_eof_std", "ssl_eof_nonstd", "clean_eos", "flushed", "fed")
+    need_a = ("want_read", "want_write", "transport_eof", "ragged_eof_nonstd", "ssl_eof_std", "ssl_eof_nonstd", "clean_eos", "flushed", "flushed_over_64k", "fed")
     need_b = ("cut_during_handshake", "cut_mid_record", "cut_between_records", "cut_after_handshake", "truncated_std",
               "truncated_nonstd", "clean_eos_std", "multi_record_payload", "zero_length_item", "full_duplex",
-              "half_close_nonstd", "half_close_broken_std", "reply_after_ragged_eof_delivered",
+              "half_close_nonstd", "half_close_broken_std", "reply_after_ragged_eof_delivered", "duplex_reply_over_64k",
               "hssl_unexpected_eof_on_cut", "hssl_empty_read_after_close_notify")
     for need in need_a:
         if not flags_a.get(need):
